@@ -42,6 +42,14 @@ func c16CheckFrames(c C16Frames) *pbt.Violation {
 			continue
 		}
 		if err != nil {
+			if failedBefore && c.Fault > 0 {
+				// a connection may refuse to go on after a failed write (a sticky error, as bufio.Writer has):
+				// the statement does not promise recovery. It must then not have written anything half-way.
+				if len(sink.Data) != before {
+					return pbt.V("c16.write.refused-but-wrote", "a packet written is read back identically", "WritePacket #%d returned %v (an earlier write on this connection had failed) but put %d bytes on the wire", i, err, len(sink.Data)-before)
+				}
+				continue
+			}
 			return pbt.V("c16.write.error", "writing a packet up to the size limit", "WritePacket #%d (%d payload bytes): %v", i, len(f.Payload), err)
 		}
 		if !bytes.Equal(sink.Data[before:], ref) {
